@@ -1,11 +1,18 @@
 (* C17: Web Annotation export is well-formed JSON faithful to the annotation.
-   Only statements here; proofs are in Proofs/Json.v and Proofs/WebAnno.v. *)
-From Coq Require Import List NArith ZArith Bool.
-From Stam Require Import Base.Tac Model.Json Proofs.Json.
+   Only statements here; proofs are in Proofs/Json.v and Proofs/WebAnno.v.
+
+   The store enters through the view the exporter reads ([storev]: resources with their text
+   selections by handle, data set identifiers, annotations with identifier, selector tree and
+   data).  [to_webannotation] is the transcription of the Rust code (string building),
+   [export_ast] the intended tree, [parse_json] this development's JSON recogniser. *)
+From Coq Require Import List NArith ZArith Bool String.
+From Stam Require Import Base.Tac Model.Json Model.WebAnno Spec.WebAnnoSpec Proofs.Json Proofs.WebAnno.
 Import ListNotations.
 
-(* JSON string escaping (what serde_json::to_string writes) is read back exactly, for EVERY
-   string: quotes, backslashes, control characters, non-BMP scalar values, anything *)
+(* ---- JSON ---- *)
+
+(* string escaping (what serde_json::to_string writes) is read back exactly, for EVERY string:
+   quotes, backslashes, control characters, non-BMP scalar values, anything *)
 Theorem C17_unescape_escape : forall s : list N, unescape (escape s) = Some s.
 Proof. exact unescape_escape. Qed.
 
@@ -16,10 +23,129 @@ Proof. exact parse_render. Qed.
 Theorem C17_parse_tokens_of : forall j, parse_tokens (tokens_of j) = Some j.
 Proof. exact parse_tokens_of. Qed.
 
-(* non-vacuity: a string with quote, backslash, U+0001, newline and a non-BMP scalar value *)
-Example C17_nonvacuous :
-  let s := [34; 92; 1; 10; 128512]%N in
-  parse_json (render (JObj [(s, JArr [JStr s; JNum [45; 49; 46; 53]%N; JNull])]))
-  = Some (JObj [(s, JArr [JStr s; JNum [45; 49; 46; 53]%N; JNull])])
-  /\ parse_json [123; 34; 97; 34; 58; 49; 32; 34; 98; 34; 58; 50; 125]%N = None.
+(* ---- the property ---- *)
+
+(* Outside the known classes, the text the exporter builds for an annotation it accepts is one
+   JSON object, and it is the intended tree: nothing lost or changed by quoting, commas, passes. *)
+Theorem C17_export_is_intended_tree : forall st c a av j,
+  get_ann st a = Some av ->
+  Known_C17_config_chars c = false ->
+  Known_C17_nonfinite av = false ->
+  Known_C17_nested_unexportable av = false ->
+  forallb (fun d => value_dates_plain (d_val d)) (a_data av) = true ->   (* chrono's to_rfc3339 *)
+  ranges_ok (a_target av) = true ->                                       (* store invariant *)
+  export_ast st c a = Some j ->
+  exists s, to_webannotation st c a = Some s /\ parse_json s = Some j /\ is_object j = true.
+Proof.
+  intros st c a av j Ha Hc Hf Hn Hd Hr E.
+  apply negb_false_iff in Hc. apply negb_false_iff in Hf.
+  assert (Hacc : accepted av = true).
+  { unfold export_ast in E. rewrite Ha in E. unfold accepted.
+    destruct (a_target av); try reflexivity; discriminate. }
+  unfold Known_C17_nested_unexportable in Hn. rewrite Hacc in Hn. apply negb_false_iff in Hn.
+  apply (export_parses st c a av j Hc Ha); try assumption.
+  apply forallb_forall. intros d Hin. unfold value_ok.
+  rewrite forallb_forall in Hf, Hd. rewrite (Hf d Hin), (Hd d Hin). reflexivity.
+Qed.
+
+(* the target of the intended tree names exactly the annotation's own text selections
+   (resource IRI, begin, end), in selector order, for every selector kind *)
+Theorem C17_targets : forall st c a av j,
+  get_ann st a = Some av -> export_ast st c a = Some j ->
+  exists pre tj, j = JObj (pre ++ [(LIT "target", tj)])
+                 /\ abs_targets st c (a_target av) = Some (targets tj).
+Proof.
+  intros st c a av j Ha E. unfold export_ast in E. rewrite Ha in E.
+  destruct (target_json st c (a_target av)) as [tj|] eqn:Et; [|discriminate].
+  injection E as <-. exists (pre_members c av), tj. split; [reflexivity|].
+  apply targets_faithful. exact Et.
+Qed.
+
+(* every data item is carried, under its predicate name, by the annotation object (main-level
+   predicates) or by its body, with the value's JSON counterpart *)
+Theorem C17_data : forall st c a av j d,
+  get_ann st a = Some av -> export_ast st c a = Some j -> In d (a_data av) ->
+  exists pre tj, j = JObj (pre ++ [(LIT "target", tj)]) /\
+    ((is_main d = true /\ In (pred_name c d, pred_json (d_val d)) pre)
+     \/ (is_main d = false /\ exists bm, In (LIT "body", JObj bm) pre /\ In (pred_name c d, pred_json (d_val d)) bm)).
+Proof.
+  intros st c a av j d Ha E Hd. unfold export_ast in E. rewrite Ha in E.
+  destruct (target_json st c (a_target av)) as [tj|] eqn:Et; [|discriminate].
+  injection E as <-. exists (pre_members c av), tj. split; [reflexivity|].
+  exact (data_faithful c av d Hd).
+Qed.
+
+(* same content: an integer is written as a literal that reads back as that integer; a string as
+   itself (C17_unescape_escape through the lexer); null, booleans, lists structurally *)
+Theorem C17_int_content : forall z, num_int (dec_Z z) = Some z.
+Proof. exact num_int_dec_Z. Qed.
+
+Theorem C17_numbers_wellformed : forall z x,
+  is_json_number (dec_Z z) = true /\ is_json_number (float_str (FQ x)) = true.
+Proof. intros z x. split; [apply dec_Z_number|apply float_str_number]. Qed.
+
+(* ---- witnesses: each known class is a real failure of the code as it is ---- *)
+
+Definition w_store (target : sel) (data : list datum) : storev :=
+  {| s_res := [Some {| r_id := LIT "r"; r_sels := [Some (0, 3)%nat] |}];
+     s_sets := [Some (LIT "myset")];
+     s_anns := [Some {| a_id := Some (LIT "a"); a_target := target; a_data := data |};
+                Some {| a_id := None; a_target := STxt 0 0; a_data := [] |}] |}.
+
+Definition w_config (ann_iri : str) : config :=
+  {| c_ann_iri := ann_iri; c_set_iri := LIT "_:"; c_res_iri := LIT "_:"; c_extra_context := [];
+     c_generated := None; c_generator := false; c_namespaces := []; c_template := None |}.
+
+Definition w_datum (v : value) : datum := {| d_set := LIT "myset"; d_key := LIT "k"; d_val := v |}.
+
+Definition export_of (st : storev) (c : config) : option json :=
+  match to_webannotation st c 0 with Some s => parse_json s | None => None end.
+
+Lemma Known_C17_nonfinite_witness :
+  let st := w_store (STxt 0 0) [w_datum (VFloat FNaN)] in
+  Known_C17_nonfinite {| a_id := Some (LIT "a"); a_target := STxt 0 0; a_data := [w_datum (VFloat FNaN)] |} = true
+  /\ export_of st (w_config (LIT "_:")) = None.
 Proof. split; vm_compute; reflexivity. Qed.
+
+Lemma Known_C17_config_chars_witness :
+  let st := w_store (STxt 0 0) [w_datum VNull] in
+  Known_C17_config_chars (w_config (LIT "pre""fix:")) = true
+  /\ export_of st (w_config (LIT "pre""fix:")) = None.
+Proof. split; vm_compute; reflexivity. Qed.
+
+Lemma Known_C17_nested_unexportable_witness :
+  let tgt := SComp [STxt 0 0; SKey] in
+  let st := w_store tgt [w_datum VNull] in
+  Known_C17_nested_unexportable {| a_id := Some (LIT "a"); a_target := tgt; a_data := [] |} = true
+  /\ export_of st (w_config (LIT "_:")) = None.
+Proof. split; vm_compute; reflexivity. Qed.
+
+(* two values under one key: well-formed, but a reader that keeps one member per name loses a value *)
+Lemma Known_C17_duplicate_names_witness :
+  let st := w_store (STxt 0 0) [w_datum (VInt 1); w_datum (VInt 2)] in
+  Known_C17_duplicate_names st (w_config (LIT "_:")) 0 = true
+  /\ exists j, export_of st (w_config (LIT "_:")) = Some j /\ norm false j <> norm true j.
+Proof.
+  split; [vm_compute; reflexivity|]. eexists. split; [vm_compute; reflexivity|]. vm_compute. discriminate.
+Qed.
+
+(* a target annotation without identifier is written as { "id": null } *)
+Lemma Known_C17_anonymous_target_witness :
+  let st := w_store (SAnn 1 None) [] in
+  Known_C17_anonymous_target st {| a_id := Some (LIT "a"); a_target := SAnn 1 None; a_data := [] |} = true
+  /\ exists m, export_of st (w_config (LIT "_:")) = Some (JObj m)
+               /\ member (LIT "target") m = Some (JObj [(LIT "id", JNull)]).
+Proof.
+  split; [vm_compute; reflexivity|]. eexists. split; vm_compute; reflexivity.
+Qed.
+
+(* non-vacuity: an annotation with a quote, a backslash, U+0001, a newline and a non-BMP scalar
+   value in its data, exported and read back as the intended tree *)
+Example C17_nonvacuous :
+  let v := VList [VStr [34; 92; 1; 10; 128512]%N; VInt (-42); VFloat (FQ 6); VNull; VBool true] in
+  let st := w_store (SDir [STxt 0 0; SRes 0]) [w_datum v; {| d_set := NS_ANNO; d_key := LIT "motivation"; d_val := VStr (LIT "tagging") |}] in
+  exists j, export_ast st (w_config (LIT "http://example.org/")) 0 = Some j
+            /\ export_of st (w_config (LIT "http://example.org/")) = Some j
+            /\ has_dup_keys j = false
+  /\ parse_json [123; 34; 97; 34; 58; 49; 32; 34; 98; 34; 58; 50; 125]%N = None.
+Proof. eexists. split; [vm_compute; reflexivity|]. split; [vm_compute; reflexivity|]. split; vm_compute; reflexivity. Qed.
